@@ -313,9 +313,17 @@ func c09ret(c *an.Ctx) {
 		armInspect(el, cc, func(n ast.Node) bool {
 			an.Assigns(n, func(lhs, rhs ast.Expr, _ token.Token) {
 				if id, isId := lhs.(*ast.Ident); isId && an.ObjOf(info, id) == types.Object(result) && rhs != nil {
-					if strings.Contains(an.Str(rhs), "evalPrimaryExpressionGroup(node.Value)") {
-						ok = true
-					}
+					// the evaluated Value of the *ReturnNode (whatever the node variable is called)
+					ast.Inspect(rhs, func(m ast.Node) bool {
+						if call, isCall := m.(*ast.CallExpr); isCall && an.IsCallTo(info, call, "(*jet.Runtime).evalPrimaryExpressionGroup") && len(call.Args) == 1 {
+							if sel, isSel := an.Unparen(call.Args[0]).(*ast.SelectorExpr); isSel && sel.Sel.Name == "Value" {
+								if tv, has := info.Types[sel.X]; has && tv.Type != nil && an.TypeName(tv.Type) == "*jet.ReturnNode" {
+									ok = true
+								}
+							}
+						}
+						return true
+					})
 				}
 			})
 			return true
